@@ -3,14 +3,27 @@ import hashlib, unicodedata
 from harness.core import Case
 from harness.canon import hx, tx
 from harness.props.mnemonic_common import IMPL, BIP39_LANGS, V2_LANGS, V2_TYPES, oracle_for, salt_field, nfkd
-from harness.props.c01 import pre_build, words_of, spec_encode, respell, gen_encode, shared_sentences
-from harness.props.c17 import v2_valid_entropy, v2_prefix_phrases
+from harness.props.c01 import pre_build, words_of, spec_encode, respell, gen_encode, shared_sentences, sentence_with_word, ref_read
+from harness.props.c17 import v2_valid_entropy, v2_prefix_phrases, v2_phrase_with_word, v2_lists
 from bip_utils import (Bip39SeedGenerator, Bip39Languages, ElectrumV1MnemonicEncoder, SubstrateBip39SeedGenerator,
                        ElectrumV2SeedGenerator, ElectrumV1SeedGenerator)
 
 LEAN_MODULES = ["BipVerif.Props.C02", "BipVerif.Props.C01Tables"]   # the seed theorems are about sentences over the registered word lists
 PASSPHRASES = ["", "TREZOR", "pass phrase", "é", "é", "ﬁancé", "ｆｕｌｌ", "Å", "Å", "Å", "q̣̇", "q̣̇", "　x　", "😀𝔘", "a\x00b", "ǆ",
                "ﷺ", "가", "가", "ßẞ", " trailing "]
+
+
+# the passphrase enters the salt as it is, apart from NFKD: white space of every kind and at every place (leading, trailing, repeated, tabs,
+# line ends, no-break / ideographic / zero-width), letter case, control characters and length are all significant
+WS_PASSPHRASES = [" ", "  ", " lead", "trail ", "two  spaces", "tab\tbed", "line\nfeed", "cr\r\nlf", "\tx", "x\n", "a b", "a\u00a0b", "\u3000wide\u3000\u3000x",
+                  "a\u2003b", "zero\u200bwidth", "\ufeffbom", "\u2028sep", "a\x0bb\x0cc", "\x1cfs", "nel\x85", "Upper lower", "UPPER", "upper",
+                  "\u0301leading mark", "x" * 121, "long " * 60]
+_PIECES = ["a", "B", "z", "0", " ", "  ", "\t", "\n", "\r", "\u00a0", "\u3000", "\u2003", "\u200b", "\ufeff", "\x00", "\x1f", "\x85", "é", "e\u0301", "É", "\ufb01", "\uff46", "\u212b",
+           "\u210c", "ß", "\u1e9e", "\u0131", "\u0130", "\u01c6", "\uac00", "\u1100\u1161", "\U0001f600", "\U0001d518", "\ufdfa", "\u0345", "\u0323\u0307", "\u0307\u0323"]
+
+
+def random_passphrase(rng):
+    return "".join(rng.choice(_PIECES) for _ in range(rng.choice([1, 2, 3, 5, 8, 13])))
 
 
 def gen(rng, tier):
@@ -82,6 +95,51 @@ def gen(rng, tier):
             for l_ in (A, B, "auto"):
                 yield Case("subseed", [l_, tx(sb), oracle_for(sb), salt_field("mnemonic", p)], "subseed-shared-words")
             yield Case("bip39seed", [B, tx(sb), oracle_for(sb), salt_field("mnemonic", p)], "bip39seed-shared-words")
+    # every generator that takes a passphrase, with passphrases whose white space / case / length matters (the salt is NFKD(prefix + passphrase))
+    pool = WS_PASSPHRASES + [random_passphrase(rng) for _ in range(6)]
+    for i, p in enumerate(rng.sample(pool, 6 if tier == "quick" else len(pool))):
+        lang = BIP39_LANGS[rng.randrange(9)]
+        sb = " ".join(spec_encode(lists[lang], bytes(rng.randrange(256) for _ in range(rng.choice([16, 32])))))
+        if i % 3 == 0:
+            yield Case("bip39seed", [lang, tx(sb), oracle_for(sb), salt_field("mnemonic", p)], "bip39seed-passphrase")
+        elif i % 3 == 1:
+            yield Case("subseed", [lang, tx(sb), oracle_for(sb), salt_field("mnemonic", p)], "subseed-passphrase")
+        else:
+            t, l2 = "STANDARD", V2_LANGS[rng.randrange(len(V2_LANGS))]
+            e, s2 = v2_valid_entropy(rng, (132, 264)[i % 2], t, l2)
+            if s2 is not None:
+                yield Case("ev2seed", [rng.choice([l2, "auto"]), tx(s2), oracle_for(s2), salt_field("electrum", p)], "ev2seed-passphrase")
+    # 'an invalid sentence never yields a seed': whether a token is a list word is decided by ONE reading, lower-cased then NFKD.  Tokens that
+    # another folding (full case folding, upper-then-lower, NFKC case folding, dropping combining marks or ignorable characters) would
+    # identify with a list word are not spellings of it; compatibility / case forms whose named reading IS the word are
+    from harness.props.mnemonic_common import fold_candidates
+    for kind, lang, wi, tok, ok in fold_candidates(rng, lists, 2 if tier == "quick" else 20):
+        _ent, ws, pos = sentence_with_word(rng, lists[lang], wi)
+        ws[pos] = tok
+        sb = " ".join(ws)
+        cls = "fold-spelling" if ok else "neg-fold-" + kind.replace(" ", "-")
+        yield Case("bip39seed", [rng.choice([lang, "auto"]), tx(sb), oracle_for(sb), salt_field("mnemonic", "")], cls)
+        if not ok or tier == "thorough":
+            yield Case("subseed", [lang, tx(sb), oracle_for(sb), salt_field("mnemonic", "")], cls)
+    v2l = v2_lists()
+    for kind, lang, wi, tok, ok in fold_candidates(rng, v2l, 1 if tier == "quick" else 8):
+        nw = rng.choice([12, 24])
+        pos = rng.randrange(nw)
+        ws, _v = v2_phrase_with_word(rng, v2l[lang], "01", nw, pos, wi, [v2l[lang]])
+        if ws is None or (ok and tier == "quick" and kind != "compatibility / case form"):
+            continue
+        ws[pos] = tok
+        sb = " ".join(ws)
+        yield Case("ev2seed", [rng.choice([lang, "auto"]), tx(sb), oracle_for(sb), salt_field("electrum", "")], ("ev2-fold-spelling" if ok else "neg-ev2-fold-" + kind.replace(" ", "-")))
+    from harness.props.c17 import _v1_words
+    v1w = _v1_words()
+    for kind, _l, wi, tok, ok in fold_candidates(rng, {"v1": v1w}, 1 if tier == "quick" else 6):
+        if ok and tier == "quick":
+            continue                          # (an accepted Electrum v1 sentence costs 100000 hashes on either side)
+        ws = [rng.choice(v1w) for _ in range(12)]
+        ws[rng.randrange(12)] = tok
+        sb = " ".join(ws)
+        yield Case("ev1seed", [tx(sb), oracle_for(sb)], "ev1-fold-spelling" if ok else "neg-ev1-fold-" + kind.replace(" ", "-"))
 
 
 def _pb(password, passphrase, prefix="mnemonic"):
@@ -178,6 +236,131 @@ def _noncanonical_objects(rng, tier, rep):
         for cname, mk in containers([("ElectrumV1Mnemonic(list)", lambda t: ElectrumV1Mnemonic(list(t)))]):
             n += 1
             probe("ElectrumV1SeedGenerator", lambda: ElectrumV1SeedGenerator(mk(toks)), toks, lambda: want, None, "%s of %r" % (cname, toks))
+    return n
+
+
+def _passphrase_opaque(rng, tier, rep):
+    """'for every passphrase': the three generators that take one (BIP-39, Substrate, Electrum v2) equal their definition — hashlib PBKDF2 with
+    the salt NFKD(prefix + passphrase) and nothing else done to the passphrase — on passphrases with white space at every place and of every
+    kind, case differences, control characters, long ones, random mixtures; asked on one generator object in a row and on fresh ones."""
+    from bip_utils import ElectrumV2Languages
+    lists = {l: words_of(l) for l in BIP39_LANGS}
+    n = 0
+    lang = BIP39_LANGS[rng.randrange(9)]
+    ent = bytes(rng.randrange(256) for _ in range(rng.choice([16, 24, 32])))
+    sent = " ".join(spec_encode(lists[lang], ent))
+    l2 = V2_LANGS[rng.randrange(len(V2_LANGS))]
+    _e2, s2 = v2_valid_entropy(rng, rng.choice([132, 264]), "STANDARD", l2)
+    gens = [("Bip39SeedGenerator", lambda: Bip39SeedGenerator(sent, Bip39Languages[lang]), nfkd(sent).encode("utf-8"), "mnemonic", sent),
+            ("SubstrateBip39SeedGenerator", lambda: SubstrateBip39SeedGenerator(sent, Bip39Languages[lang]), ent, "mnemonic", sent)]
+    if s2 is not None:
+        gens.append(("ElectrumV2SeedGenerator", lambda: ElectrumV2SeedGenerator(s2, ElectrumV2Languages[l2]), nfkd(s2).encode("utf-8"), "electrum", s2))
+    pool = PASSPHRASES + WS_PASSPHRASES + [random_passphrase(rng) for _ in range(20 if tier == "quick" else 400)]
+    for gname, mk, password, prefix, shown in gens:
+        kept = mk()
+        for p in (pool if tier == "thorough" else WS_PASSPHRASES + rng.sample(pool, 14)):
+            want = _pb(password, p, prefix).hex()
+            for route, g in (("one generator object asked in a row", kept), ("fresh generator object", None)):
+                if g is None and rng.random() < 0.6 and tier == "quick":
+                    continue
+                n += 1
+                got = (g or mk()).Generate(p).hex()
+                if got != want:
+                    rep("%s(sentence).Generate(passphrase) is not PBKDF2-HMAC-SHA512(password of the scheme, NFKD(%r + passphrase), 2048, 64): the passphrase "
+                        "enters the salt as given (%s)" % (gname, prefix, route), "%s | passphrase %r" % (shown, p), got, want)
+                    break
+    return n
+
+
+def _fold_spellings(rng, tier, rep):
+    """valid / invalid is decided by the lower-cased NFKD reading of each token alone (unicodedata reference, hashlib seeds): a sentence with a
+    token another folding would identify with a list word yields no seed unless that reading makes a checksum-valid sentence of one list, in
+    which case the seed is the one of the canonical sentence — for the BIP-39, Substrate, Electrum v2 and Electrum v1 generators."""
+    from harness.props.mnemonic_common import fold_candidates
+    from harness.props.c17 import _v1_words
+    from bip_utils import ElectrumV2Languages
+    lists = {l: words_of(l) for l in BIP39_LANGS}
+    index = {l: {w: i for i, w in enumerate(lists[l])} for l in BIP39_LANGS}
+    anyword = set().union(*[set(w) for w in lists.values()])
+    n = 0
+
+    def seed_of(f):
+        try:
+            return f().hex()
+        except ValueError:
+            return "refused"
+        except Exception as ex:  # noqa
+            return "refused (%s)" % type(ex).__name__
+
+    for kind, lang, wi, tok, ok in fold_candidates(rng, lists, 3 if tier == "quick" else 40):
+        ent, ws, pos = sentence_with_word(rng, lists[lang], wi)
+        ws[pos] = tok
+        for s in (" ".join(ws), respell(rng, ws) if tier == "thorough" else None):
+            if s is None:
+                continue
+            named = [nfkd(t.lower()) for t in s.split()]
+            if any(nfkd(x.lower()) != x for x in named):        # (only fixed points of the named reading are compared, see mnemonic_common.respellings)
+                continue
+            readings = {l: ref_read(index[l], named) for l in BIP39_LANGS}
+            p = PASSPHRASES[rng.randrange(len(PASSPHRASES))]
+            what = "a %s sentence one of whose tokens is %r (U+%s; %s would read it as the list word %r, lower-casing then NFKD reads it as %r)" % (
+                lang, tok, " U+".join("%04X" % ord(c) for c in tok if not c.isascii()), kind, lists[lang][wi], nfkd(tok.lower()))
+            for lg in (lang, None):
+                n += 1
+                got = seed_of(lambda: Bip39SeedGenerator(s, Bip39Languages[lg] if lg else None).Generate(p))
+                gsub = seed_of(lambda: SubstrateBip39SeedGenerator(s, Bip39Languages[lg] if lg else None).Generate(p))
+                oks = [e for l, (k, e, _v) in readings.items() if k == "ok" and (lg is None or l == lg)]
+                wants = [_pb(nfkd(" ".join(named)).encode("utf-8"), p).hex() for _e in oks] or ["refused"]
+                wsub = [_pb(e, p).hex() for e in oks] or ["refused"]
+                if lg is None and oks:
+                    wants.append("refused"); wsub.append("refused")       # (auto-detection may settle on a list whose reading is not checksum-valid)
+                if got.split(" ")[0] not in wants:
+                    rep("Bip39SeedGenerator(sentence, %s) on %s: %s" % (lg or "language auto-detected", what, "an invalid sentence never yields a seed" if wants == ["refused"] else "the seed is the one of the canonical sentence"),
+                        "%r | passphrase %r" % (s, p), got, " or ".join(wants))
+                if gsub.split(" ")[0] not in wsub:
+                    rep("SubstrateBip39SeedGenerator(sentence, %s) on %s: %s" % (lg or "language auto-detected", what, "an invalid sentence never yields a seed" if wsub == ["refused"] else "the seed is the one of the entropy"),
+                        "%r | passphrase %r" % (s, p), gsub, " or ".join(wsub))
+    v2l = v2_lists()
+    for kind, lang, wi, tok, ok in fold_candidates(rng, v2l, 2 if tier == "quick" else 12):
+        nw = rng.choice([12, 24])
+        pos = rng.randrange(nw)
+        ws, _v = v2_phrase_with_word(rng, v2l[lang], "01", nw, pos, wi, [v2l[lang]])
+        if ws is None:
+            continue
+        canon = " ".join(ws)
+        ws[pos] = tok
+        s = " ".join(ws)
+        named = nfkd(tok.lower())
+        if not ok and named in anyword:
+            continue
+        for lg in (lang, None):
+            n += 1
+            got = seed_of(lambda: ElectrumV2SeedGenerator(s, ElectrumV2Languages[lg] if lg else None).Generate("pw"))
+            want = _pb(nfkd(canon).encode("utf-8"), "pw", "electrum").hex() if ok else "refused"
+            if got.split(" ")[0] != want:
+                rep("ElectrumV2SeedGenerator(sentence, %s) on a %s sentence one of whose tokens is %r (%s would read it as the list word %r, lower-casing then NFKD reads it as %r, "
+                    "which is %s): %s" % (lg or "language auto-detected", lang, tok, kind, v2l[lang][wi], named, "that word" if ok else "in no list",
+                                          "the seed is the one of the canonical sentence" if ok else "an invalid sentence never yields a seed"), "%r | passphrase 'pw'" % s, got, want)
+    v1w = _v1_words()
+    v1set = set(v1w)
+    for kind, _l, wi, tok, ok in fold_candidates(rng, {"v1": v1w}, 1 if tier == "quick" else 6):
+        if ok and tier == "quick" and kind != "compatibility / case form":
+            continue
+        ws = [rng.choice(v1w) for _ in range(12)]
+        pos = rng.randrange(12)
+        ws[pos] = v1w[wi]
+        canon = " ".join(ws)
+        ws[pos] = tok
+        s = " ".join(ws)
+        named = nfkd(tok.lower())
+        if not ok and named in v1set:
+            continue
+        n += 1
+        got = seed_of(lambda: ElectrumV1SeedGenerator(s).Generate())
+        want = seed_of(lambda: ElectrumV1SeedGenerator(canon).Generate()) if ok else "refused"
+        if got.split(" ")[0] != want:
+            rep("ElectrumV1SeedGenerator(sentence) on a sentence one of whose tokens is %r (%s would read it as the list word %r, lower-casing then NFKD reads it as %r): %s" % (
+                tok, kind, v1w[wi], named, "the seed is the one of the canonical sentence" if ok else "an invalid sentence never yields a seed"), repr(s), got, want)
     return n
 
 
@@ -336,12 +519,14 @@ def relations(rng, tier, rpt):
                     if key in first and first[key] != (got, sub):
                         rep("seed generators answer differently for the same (sentence, passphrase) after a sentence of another language was processed", sent, str((got[:16], sub[:16])), str((first[key][0][:16], first[key][1][:16])))
                     first.setdefault(key, (got, sub))
+    rpt.extra["passphrase_checks"] = _passphrase_opaque(rng, tier, rep)
+    rpt.extra["fold_spelling_checks"] = _fold_spellings(rng, tier, rep)
     rpt.extra["shared_word_language_checks"] = _shared_words_language(rng, tier, rep)
     rpt.extra["noncanonical_object_checks"] = _noncanonical_objects(rng, tier, rep)
     rpt.extra["history_checks"] = nh
     rpt.extra["argument_form_checks"] = nf
     rpt.extra["impl_relation_checks"] = n
-    return bad[:6]
+    return bad[:10]
 
 
 def search_broken(broken, rng):
